@@ -44,6 +44,8 @@ pub struct MTask {
     pub catch_snap: Option<(Vec<usize>, Vec<usize>, Vec<usize>)>,
     /// name given at spawn (None for scoped threads)
     pub named: bool,
+    /// SemCancel: the polled acquisition completed and its permits are about to be released again
+    pub holding: bool,
 }
 
 #[derive(Clone, Debug, PartialEq, Eq, PartialOrd, Ord, Hash, Default)]
@@ -100,6 +102,81 @@ impl MChan {
     }
 }
 
+/// engine-level counting semaphore (Appendix A.8): `queue` = waiting acquisitions in arrival
+/// order (task, permits), `granted` = acquisitions that were handed their permits (fair mode) but
+/// have not observed it yet
+#[derive(Clone, Debug, PartialEq, Eq, PartialOrd, Ord, Hash, Default)]
+pub struct MSem {
+    pub avail: usize,
+    pub fair: bool,
+    pub closed: bool,
+    pub queue: Vec<(usize, usize)>,
+    pub granted: Vec<(usize, usize)>,
+}
+
+impl MSem {
+    fn grant_from_front(&mut self) {
+        if !self.fair {
+            return;
+        }
+        while let Some((t, n)) = self.queue.first().cloned() {
+            if n <= self.avail {
+                self.avail -= n;
+                self.queue.remove(0);
+                self.granted.push((t, n));
+            } else {
+                break;
+            }
+        }
+    }
+    fn release(&mut self, k: usize) {
+        self.avail += k;
+        self.grant_from_front();
+    }
+    /// first poll of an acquisition by `t`: Some(true) acquired, Some(false) closed, None queued
+    fn arrive(&mut self, t: usize, n: usize) -> Option<bool> {
+        if self.closed {
+            return Some(false);
+        }
+        if (self.queue.is_empty() || !self.fair) && self.avail >= n {
+            self.avail -= n;
+            return Some(true);
+        }
+        self.queue.push((t, n));
+        None
+    }
+    /// later poll: Some(true) acquired, Some(false) closed, None still waiting
+    fn repoll(&mut self, t: usize, n: usize) -> Option<bool> {
+        if let Some(i) = self.granted.iter().position(|(x, _)| *x == t) {
+            self.granted.remove(i);
+            return Some(true);
+        }
+        let pos = self.queue.iter().position(|(x, _)| *x == t);
+        if pos.is_none() {
+            // removed by close
+            return Some(false);
+        }
+        if !self.fair && self.avail >= n {
+            self.avail -= n;
+            self.queue.remove(pos.unwrap());
+            return Some(true);
+        }
+        None
+    }
+    /// drop of an unfinished acquisition
+    fn cancel(&mut self, t: usize) {
+        if let Some(i) = self.granted.iter().position(|(x, _)| *x == t) {
+            let (_, n) = self.granted.remove(i);
+            self.release(n);
+        } else if let Some(i) = self.queue.iter().position(|(x, _)| *x == t) {
+            self.queue.remove(i);
+            if i == 0 {
+                self.grant_from_front();
+            }
+        }
+    }
+}
+
 #[derive(Clone, Debug, PartialEq, Eq, PartialOrd, Ord, Hash)]
 pub struct MState {
     pub tasks: Vec<MTask>,
@@ -110,6 +187,7 @@ pub struct MState {
     pub once: Vec<MOnce>,
     pub atom: Vec<u64>,
     pub chan: Vec<MChan>,
+    pub sem: Vec<MSem>,
 }
 
 #[derive(Clone, Debug, PartialEq, Eq)]
@@ -160,6 +238,7 @@ pub fn init_state(p: &Program) -> MState {
             parent: p.parent_of(b),
             catch_snap: None,
             named: false,
+            holding: false,
         });
     }
     MState {
@@ -180,6 +259,7 @@ pub fn init_state(p: &Program) -> MState {
                 rx_waiting: false,
             })
             .collect(),
+        sem: p.res.sems.iter().map(|(n, fair)| MSem { avail: *n, fair: *fair, ..Default::default() }).collect(),
     }
 }
 
@@ -243,6 +323,74 @@ pub fn micro(s: &MState, t: usize, op: &Op, j: u8, uv: u64) -> Option<Vec<Out>> 
             }
             n.tasks[t].catch_snap = None;
             done(n, ex("caught"))
+        }
+        Op::SemAcquire(sm, k) => {
+            let r = if j == 0 { n.sem[*sm].arrive(t, *k) } else { n.sem[*sm].repoll(t, *k) };
+            match r {
+                Some(ok) => {
+                    let a = n.sem[*sm].avail;
+                    done(n, Res::Exact(format!("{}:{}", if ok { "ok" } else { "err" }, a)))
+                }
+                None if j == 0 => Some(vec![Out::Cont(n)]),
+                None => None,
+            }
+        }
+        Op::SemTry(sm, k) => {
+            let sem = &mut n.sem[*sm];
+            let tag = if sem.closed {
+                "closed"
+            } else if (sem.fair && !sem.queue.is_empty()) || sem.avail < *k {
+                "nopermits"
+            } else {
+                sem.avail -= *k;
+                "ok"
+            };
+            let a = sem.avail;
+            done(n, Res::Exact(format!("{}:{}", tag, a)))
+        }
+        Op::SemRelease(sm, k) => {
+            n.sem[*sm].release(*k);
+            let a = n.sem[*sm].avail;
+            done(n, Res::Exact(a.to_string()))
+        }
+        Op::SemClose(sm) => {
+            n.sem[*sm].closed = true;
+            n.sem[*sm].queue.clear();
+            let a = n.sem[*sm].avail;
+            done(n, Res::Exact(a.to_string()))
+        }
+        Op::SemCancel(sm, k, polls) => {
+            // micro-ops: 0 = first poll; with two polls: 1 = scheduling point, 2 = second poll; last = drop.
+            // A poll that completes the acquisition is followed by a separate release micro-op.
+            let last = if *polls >= 2 { 3 } else { 1 };
+            if s.tasks[t].holding {
+                n.tasks[t].holding = false;
+                n.sem[*sm].release(*k);
+                let a = n.sem[*sm].avail;
+                return done(n, Res::Exact(format!("acquired:{}", a)));
+            }
+            let r = if j == 0 {
+                Some(n.sem[*sm].arrive(t, *k))
+            } else if j == last {
+                n.sem[*sm].cancel(t);
+                let a = n.sem[*sm].avail;
+                return done(n, Res::Exact(format!("cancelled:{}", a)));
+            } else if j == 1 {
+                None
+            } else {
+                Some(n.sem[*sm].repoll(t, *k))
+            };
+            match r {
+                Some(Some(true)) => {
+                    n.tasks[t].holding = true;
+                    Some(vec![Out::Cont(n)])
+                }
+                Some(Some(false)) => {
+                    let a = n.sem[*sm].avail;
+                    done(n, Res::Exact(format!("err:{}", a)))
+                }
+                _ => Some(vec![Out::Cont(n)]),
+            }
         }
         Op::ResetSteps => done(n, ex("")),
         Op::TlsWith(_) => done(n, Res::Any),
@@ -1220,13 +1368,14 @@ pub fn brief(s: &MState) -> String {
         .map(|(i, t)| format!("b{}:{:?}@{}{}", i, t.st, t.label, if t.parked { "(parked)" } else { "" }))
         .collect();
     format!(
-        "tasks[{}] mutex{:?} rw{:?} cv{:?} chan{:?} once{:?}",
+        "tasks[{}] mutex{:?} rw{:?} cv{:?} chan{:?} once{:?} sem{:?}",
         ts.join(" "),
         s.mutex.iter().map(|m| m.owner).collect::<Vec<_>>(),
         s.rw.iter().map(|r| (r.readers.len(), r.writer)).collect::<Vec<_>>(),
         s.cv,
         s.chan.iter().map(|c| (c.buf.len(), c.senders, c.rx_alive, c.send_q.clone(), c.rx_waiting)).collect::<Vec<_>>(),
-        s.once
+        s.once,
+        s.sem
     )
 }
 
